@@ -8,7 +8,7 @@ use std::{
     panic,
 };
 
-use crate::prelude::{transpose, Dot};
+use crate::prelude::transpose;
 
 use super::super::utils::{dot, ipiv_parity};
 use super::vops::*;
@@ -147,7 +147,9 @@ impl Matrix {
 
         for i in 0..self.ncols {
             for j in 0..(i + 1) {
-                let s = l.get_row_as_vector(j).dot(l.get_row_as_vector(i));
+                // same partial dot product (row prefixes) as the slice-level `cholesky`, so that
+                // both forms return bit-identical factors
+                let s = dot(&l[j][..j], &l[i][..j]);
 
                 if i == j {
                     let d = self[[i, i]] - s;
